@@ -45,6 +45,18 @@ class Run:
         self.assumptions = []
         self.explanations = []
         self.infos = []
+        self.errors = []
+
+    def group(self, fn, *args, **kw):
+        """Run one rule group; an AnalysisError inside it is deferred so that definite findings of
+        other groups are still reported (exit 1 wins over exit 2)."""
+        from .db import AnalysisError
+        from .norm import NormError
+        try:
+            return fn(*args, **kw)
+        except (AnalysisError, NormError) as e:
+            self.errors.append('%s: %s' % (getattr(fn, '__name__', 'group'), e))
+            return None
 
     # -- recording ---------------------------------------------------------
     def rule(self, name, text):
@@ -96,11 +108,12 @@ class Run:
                 self.assumptions.append(i)
 
     def require_instances(self, rule, minimum):
-        from .db import AnalysisError
+        """A rule matching (almost) nothing must not pass vacuously: recorded as a deferred analysis
+        error (exit 2 unless a definite finding is reported)."""
         n = self.analysed['rules'].get(rule, {}).get('instances', 0)
-        if n < minimum:
-            raise AnalysisError('rule %s matched %d instances, fewer than the %d confirmed by hand '
-                                '(a rule matching nothing must not pass vacuously)' % (rule, n, minimum))
+        if n < minimum and not self.errors:
+            self.errors.append('rule %s matched %d instances, fewer than the %d confirmed by hand '
+                               '(a rule matching nothing must not pass vacuously)' % (rule, n, minimum))
 
 
 def load_known():
@@ -193,4 +206,9 @@ def finish(run, only_key=None, write_evidence=True, quiet=False):
             print('  rule %-18s instances=%-3d findings=%d' % (k, v['instances'], v['findings']))
         for line in out:
             print(line)
+    if run.errors and only_key is None:
+        for e in run.errors:
+            print('ANALYSIS-ERROR property=%s: %s' % (run.prop, e))
+        if not viol:
+            return 2
     return 1 if viol else 0
